@@ -4,6 +4,8 @@ import json, os, random, re, shutil, subprocess, sys, time, hashlib, glob
 VERIF = os.path.dirname(os.path.dirname(os.path.dirname(os.path.abspath(__file__))))
 LEAN = os.path.join(VERIF, 'lean')
 CACHE = os.path.join(VERIF, '.cache')
+# evidence normally goes to /verif/evidence; mutant trials (bin/try-mutant) redirect it
+EVIDENCE = os.environ.get('VSB_VERIF_EVIDENCE_DIR') or os.path.join(VERIF, 'evidence')
 ALLOWED_AXIOMS = {'propext', 'Classical.choice', 'Quot.sound'}
 FORBIDDEN = re.compile(r'\b(sorry|admit|native_decide|bv_decide|implemented_by|unsafe)\b|^\s*axiom\s|maxHeartbeats\s+0', re.M)
 
@@ -29,7 +31,7 @@ class Ctx:
         self._known = load_known_findings().get(prop, [])
         self.bindir = None
         import glob as _glob
-        for old in _glob.glob(os.path.join(VERIF, 'evidence', 'replay', '%s-*.json' % prop)):
+        for old in _glob.glob(os.path.join(EVIDENCE, 'replay', '%s-*.json' % prop)):
             if not replay or os.path.abspath(replay) != old:
                 os.unlink(old)
 
@@ -59,7 +61,7 @@ class Ctx:
                     self.known_hits.append(kf)
                 return False
         n = len(self.violations) + 1
-        rdir = os.path.join(VERIF, 'evidence', 'replay')
+        rdir = os.path.join(EVIDENCE, 'replay')
         os.makedirs(rdir, exist_ok=True)
         path = os.path.join(rdir, '%s-%d.json' % (self.prop, n))
         with open(path, 'w') as f:
@@ -76,8 +78,8 @@ class Ctx:
             'violations': len(self.violations),
         }
         ev['coverage']['known_findings_hit'] = [k['id'] for k in self.known_hits]
-        os.makedirs(os.path.join(VERIF, 'evidence'), exist_ok=True)
-        with open(os.path.join(VERIF, 'evidence', self.prop + '.json'), 'w') as f:
+        os.makedirs(EVIDENCE, exist_ok=True)
+        with open(os.path.join(EVIDENCE, self.prop + '.json'), 'w') as f:
             json.dump(ev, f, indent=1, default=str)
         for kf in self.known_hits:
             print('KNOWN-FINDING: property=%s %s' % (self.prop, kf['what']))
